@@ -32,7 +32,7 @@ func genClientID(r *hx.Rng) string {
 // famGmpAddr drives BuildAddressPredictable: coinciding concatenations, empty salt, NUL bytes,
 // every validation guard alone, boundary lengths.
 func famGmpAddr(r *hx.Rng, o *hx.Out) {
-	n := hx.N(60, 1500)
+	n := hx.N(60, 600)
 	// coinciding concatenations: one string cut at two different places
 	for i := 0; i < n; i++ {
 		w := r.Str(idAlphabet, 10, 30)
